@@ -16,7 +16,7 @@ print(registry.machine('$P').TIERS['$P']['quick']['runs']*$SCALE)")
     VERIF_SEED=$s ./check $P --no-evidence --workers $W --runs $Q --wall-cap 1500 2>&1 | grep -E "VIOLATION|HARNESS|signature|^C[0-9]+:" | sed "s/^/seed=$s /"
     for f in replays/$P-$s-*.json; do
       [ -f "$f" ] || continue
-      echo "seed=$s REPLAY-JSON $f $(/venv/bin/python -B -c "import json,sys; print(json.dumps(json.load(open('$f'))))")"
+      /venv/bin/python -B -c "import json,sys; sys.stdout.write('seed=$s REPLAY-JSON $f ' + json.dumps(json.load(open('$f'))) + '\n')"
       rm -f "$f"
     done
   done
